@@ -148,6 +148,13 @@ def sXor (a b : Set) : Set := sOr (sSub a b) (sSub b a)
 
 def isSubset (a b : Set) : Bool := (sSub a b).isEmpty
 def isDisjoint (a b : Set) : Bool := (sAnd a b).isEmpty
+def isSuperset (a b : Set) : Bool := isSubset b a
+
+/-- cardinalities of the mathematical results (C08) -/
+def interLen (a b : Set) : Nat := (sAnd a b).length
+def unionLen (a b : Set) : Nat := (sOr a b).length
+def diffLen (a b : Set) : Nat := (sSub a b).length
+def xorLen (a b : Set) : Nat := (sXor a b).length
 
 end Spec
 end Roaring
